@@ -1085,3 +1085,12 @@ _run_c07h = run
 def run(ctx):
     _run_c07h(ctx)
     ctx.guard(r07_8)
+
+
+_run_before_r07_9 = run
+
+
+def run(ctx):
+    _run_before_r07_9(ctx)
+    from . import replay_rules
+    ctx.guard(replay_rules.r07_9)
